@@ -15,6 +15,8 @@
 //!   restart  same file again -> cookies of the first run accepted, key bytes in file unchanged
 //!   multi    file with 3 keys written by a real `KeySetProvider` (history 2, 3 rotations,
 //!            one session per rotation) -> sessions of age <= 2 accepted, age 3 rejected
+//!   history  the 3-key file started with stale-key-count 5 and 1 (not what it was written with);
+//!            with 1 also followed by the daemon's own rotation: the previous key must survive
 //!   rotate   rotation interval 1 s: after the daemon's own rotation the file is copied and a
 //!            restart from the copy accepts the cookies of before and after the rotation
 //!   crash    every prefix of the stored 1-key file (thorough: also of a 2-key file) =
@@ -332,6 +334,8 @@ struct Env<'a> {
     rig: Rig,
     dir: PathBuf,
     next: std::cell::Cell<u32>,
+    /// when the last provider thread with a 1 s rotation interval was released
+    live: std::cell::Cell<Option<Instant>>,
 }
 
 impl Env<'_> {
@@ -388,8 +392,9 @@ enum Expect {
 }
 
 /// Write `file` (None = no file), start the daemon's provider on it, use the key set, judge.
-/// `old`: sessions issued under the original key set with their expected validity if restored.
-async fn file_case(env: &Env<'_>, kind: &str, name: &str, file: Option<&[u8]>, stale: usize, old: &[(bool, &Session)], expect: Expect) -> String {
+/// `old`: sessions issued under the original key set with their expected validity if restored
+/// (None = not judged: slack between a history-reducing restart and the next rotation).
+async fn file_case(env: &Env<'_>, kind: &str, name: &str, file: Option<&[u8]>, stale: usize, old: &[(Option<bool>, &Session)], expect: Expect) -> String {
     let ctx = env.ctx;
     let path = env.path(name);
     let trace = format!("{kind};{name}");
@@ -453,11 +458,13 @@ async fn file_case(env: &Env<'_>, kind: &str, name: &str, file: Option<&[u8]>, s
                 );
             }
         }
-        if matches!(r, Served::Accepted(_)) != *valid_if_restored {
-            wrong.push(i);
+        match valid_if_restored {
+            Some(v) if matches!(r, Served::Accepted(_)) != *v => wrong.push(i),
+            Some(_) => {}
+            None => ctx.inc(if matches!(r, Served::Accepted(_)) { "reload_slack_accepted" } else { "reload_slack_rejected" }),
         }
     }
-    let restored = wrong.is_empty() && old.iter().any(|o| o.0);
+    let restored = wrong.is_empty() && old.iter().any(|o| o.0 == Some(true));
     let fresh = acc == 0;
     obs.push_str(&format!("old-accepted={acc} old-rejected={rej} "));
     if restored {
@@ -512,6 +519,74 @@ async fn file_case(env: &Env<'_>, kind: &str, name: &str, file: Option<&[u8]>, s
     }
     ctx.distinct(common::hash_of(&(kind, name)));
     obs
+}
+
+/// A 3-key file (history 2, generations 1..=3, sessions of generations 0..=3) is started with
+/// stale-key-count 1 and a 1 s rotation interval; after exactly one rotation of the daemon the
+/// session of the previous key (generation 3) must still be accepted, older ones rejected.
+async fn lowered_history_then_rotation(env: &Env<'_>, bytes: &[u8], sessions: &[(usize, Session)]) -> String {
+    let ctx = env.ctx;
+    let mut result = String::from("not judged");
+        let path = env.path("lowered-history-then-rotation");
+        std::fs::write(&path, bytes).expect("scratch write");
+        ctx.inc("evaluations");
+        ctx.inc("daemon_starts");
+        ctx.inc("restart_cases");
+        let trace = "restart;lowered-history-then-rotation";
+        match start(&path, 1, 1).await {
+            Err(e) => ctx.violation("C27:daemon-start-fails", format!("lowered history: {e}"), trace),
+            Ok(mut st) => {
+                match tokio::time::timeout(Duration::from_secs(30), st.rx.changed()).await {
+                    Ok(Ok(())) => {
+                        let k = st.rx.borrow_and_update().clone();
+                        // the thread stores before it publishes: the file is at least as new as `k`.
+                        // rotations so far = keys in the file that the original file did not hold
+                        // (robust against wrong ids, which is what this scenario is about)
+                        let now_file = std::fs::read(&path).unwrap_or_default();
+                        drop(st);
+                        env.live.set(Some(Instant::now()));
+                        let orig: Vec<&[u8]> = bytes[20..].chunks(64).collect();
+                        let new_keys = now_file.get(20..).map(|b| b.chunks(64).filter(|c| c.len() == 64 && !orig.contains(c)).count());
+                        match new_keys {
+                            Some(1) => {
+                                ctx.inc("daemon_rotations_observed");
+                                // generations after one rotation with history 1: newest 4, previous 3
+                                let mut obs = String::new();
+                                for (r, s) in sessions {
+                                    let served = serve(&k, s, &s.cookies[2 % s.cookies.len()]);
+                                    let want = *r == 3;
+                                    obs.push_str(&format!("gen{r}:{} ", served.short()));
+                                    match (&served, want) {
+                                        (Served::Accepted(_), true) | (Served::Nak, false) => {}
+                                        (Served::Accepted(_), false) => ctx.violation(
+                                            "C27:rotation-keeps-expired-key",
+                                            format!("stale-key-count lowered to 1, one rotation later the session of generation {r} (newest is 4) is still accepted"),
+                                            trace,
+                                        ),
+                                        (Served::Nak, true) => ctx.violation(
+                                            "C27:rotation-drops-valid-cookie",
+                                            "stale-key-count lowered from 2 to 1 across a restart: after the next rotation the cookie of the previous key (within 1 stale key) is rejected".to_string(),
+                                            trace,
+                                        ),
+                                        (o, _) => ctx.violation("C27:loaded-set-unusable", format!("lowered history: serving old cookie: {}", o.short()), trace),
+                                    }
+                                }
+                                match use_keyset(&env.rig, &k).await {
+                                    Ok(_) => ctx.inc("keysets_used_ok"),
+                                    Err(e) => ctx.violation("C27:loaded-set-unusable", format!("lowered history, after rotation: {e}"), trace),
+                                }
+                                ctx.sample(format!("history lowered 2->1 then daemon rotation: {obs}"));
+                                result = obs.clone();
+                                ctx.distinct(common::hash_of(&trace));
+                            }
+                            other => ctx.cap_hit(&format!("lowered-history scenario: expected exactly one rotation when the key set was read, the file shows {other:?} new keys; not judged")),
+                        }
+                    }
+                    w => ctx.cap_hit(&format!("lowered-history scenario: no rotation observed within 30 s ({w:?}); not judged")),
+                }
+            }
+        }
+    result
 }
 
 fn with_hdr(f: &[u8], time: Option<u64>, off: Option<u32>, primary: Option<u32>, len: Option<u32>) -> Vec<u8> {
@@ -594,7 +669,7 @@ async fn run_all(env: &Env<'_>) {
                         drop(st);
                         match s1 {
                             Ok(s1) => {
-                                let old: Vec<(bool, &Session)> = vec![(true, &s0), (true, &s1)];
+                                let old: Vec<(Option<bool>, &Session)> = vec![(Some(true), &s0), (Some(true), &s1)];
                                 let o = file_case(env, "rotate", "restart-after-daemon-rotation", Some(&copy), 7, &old, Expect::Restored).await;
                                 ctx.sample(format!("rotate: file copied after the daemon's own rotation ({} bytes), restart -> {o}", copy.len()));
                             }
@@ -637,7 +712,7 @@ async fn run_all(env: &Env<'_>) {
                         let image = std::fs::read(&path).unwrap_or_default();
                         drop(st);
                         // restart on the very file the daemon wrote
-                        let o = file_case(env, "restart", "file-written-by-daemon", Some(&image), 1, &[(true, &s)], Expect::Restored).await;
+                        let o = file_case(env, "restart", "file-written-by-daemon", Some(&image), 1, &[(Some(true), &s)], Expect::Restored).await;
                         ctx.sample(format!("create: mode {:o}, {} bytes; restart -> {o}", mode.unwrap_or(0), image.len()));
                     }
                 }
@@ -651,12 +726,30 @@ async fn run_all(env: &Env<'_>) {
     // ---- multi-key restart ----
     {
         let (bytes, sessions) = healthy(env, 2, 3).await;
-        let old: Vec<(bool, &Session)> = sessions.iter().map(|(r, s)| (3 - r <= 2, s)).collect();
+        let old: Vec<(Option<bool>, &Session)> = sessions.iter().map(|(r, s)| (Some(3 - r <= 2), s)).collect();
         let o = file_case(env, "restart", "3-keys-history-2-after-3-rotations", Some(&bytes), 2, &old, Expect::Restored).await;
         ctx.sample(format!("multi: {o}"));
         // the same file, permissive mode bits beforehand: still restored (only a warning)
         let o = file_case(env, "restart", "3-keys-again", Some(&bytes), 2, &old, Expect::Restored).await;
         let _ = o;
+    }
+
+    // ---- restart with another stale-key-count than the file was written with ----
+    {
+        let (bytes, sessions) = healthy(env, 2, 3).await; // 3 keys (generations 1,2,3), sessions of ages 3,2,1,0
+        // larger history: nothing more to restore than the file holds
+        let old: Vec<(Option<bool>, &Session)> = sessions.iter().map(|(r, s)| (Some(3 - r <= 2), s)).collect();
+        let o = file_case(env, "restart", "3-keys-loaded-with-history-5", Some(&bytes), 5, &old, Expect::Restored).await;
+        ctx.sample(format!("history raised 2->5: {o}"));
+        // smaller history, no rotation yet: ages 0..=1 must be accepted, age 2 is slack, age 3 must fail
+        let old: Vec<(Option<bool>, &Session)> = sessions
+            .iter()
+            .map(|(r, s)| (match 3 - r { 0 | 1 => Some(true), 2 => None, _ => Some(false) }, s))
+            .collect();
+        let o = file_case(env, "restart", "3-keys-loaded-with-history-1", Some(&bytes), 1, &old, Expect::Restored).await;
+        ctx.sample(format!("history lowered 2->1, before the next rotation: {o}"));
+        // smaller history and then the daemon's own rotation (interval 1 s)
+        lowered_history_then_rotation(env, &bytes, &sessions).await;
     }
 
     // ---- crash points: every prefix of a stored file ----
@@ -666,7 +759,7 @@ async fn run_all(env: &Env<'_>) {
             bases.push(healthy(env, 1, 1).await);
         }
         for (bytes, sessions) in &bases {
-            let old: Vec<(bool, &Session)> = sessions.iter().map(|(_, s)| (true, s)).collect();
+            let old: Vec<(Option<bool>, &Session)> = sessions.iter().map(|(_, s)| (Some(true), s)).collect();
             for k in 0..bytes.len() {
                 let o = file_case(env, "crash", &format!("prefix-{k}-of-{}", bytes.len()), Some(&bytes[..k]), 1, &old, Expect::Fresh).await;
                 if k == 0 || k == 20 || k + 1 == bytes.len() {
@@ -681,7 +774,7 @@ async fn run_all(env: &Env<'_>) {
     // ---- corrupt classes ----
     {
         let (bytes, sessions) = healthy(env, 1, 1).await;
-        let old: Vec<(bool, &Session)> = sessions.iter().map(|(_, s)| (true, s)).collect();
+        let old: Vec<(Option<bool>, &Session)> = sessions.iter().map(|(_, s)| (Some(true), s)).collect();
         for (name, file, expect) in corrupt_classes(&bytes) {
             // corrupted files may legitimately keep some keys and lose others: old cookies are
             // served for crash/panic detection, their validity is not judged (Expect::Either)
@@ -734,7 +827,7 @@ async fn run_all(env: &Env<'_>) {
     }
 
     // let the 1 s-interval provider thread of the rotate scenario finish its last round
-    let since = rotate_done.elapsed();
+    let since = env.live.get().map_or(rotate_done, |l| l.max(rotate_done)).elapsed();
     if since < Duration::from_millis(2500) {
         tokio::time::sleep(Duration::from_millis(2500) - since).await;
     }
@@ -752,7 +845,7 @@ async fn replay_one(env: &Env<'_>, trace: &str) -> String {
             let nums: Vec<usize> = name.split('-').filter_map(|p| p.parse().ok()).collect();
             let total = *nums.last().unwrap_or(&84);
             let (bytes, sessions) = if total <= 84 { healthy(env, 0, 0).await } else { healthy(env, 1, 1).await };
-            let old: Vec<(bool, &Session)> = sessions.iter().map(|(_, s)| (true, s)).collect();
+            let old: Vec<(Option<bool>, &Session)> = sessions.iter().map(|(_, s)| (Some(true), s)).collect();
             if name.starts_with("prefix") {
                 let k = nums.first().copied().unwrap_or(0).min(bytes.len());
                 file_case(env, "crash", "replay", Some(&bytes[..k]), 1, &old, Expect::Fresh).await
@@ -772,9 +865,13 @@ async fn replay_one(env: &Env<'_>, trace: &str) -> String {
             }
         }
         "create" => file_case(env, "create", "replay", None, 1, &[], Expect::Either).await,
+        "restart" if name == "lowered-history-then-rotation" => {
+            let (bytes, sessions) = healthy(env, 2, 3).await;
+            lowered_history_then_rotation(env, &bytes, &sessions).await
+        }
         "restart" => {
             let (bytes, sessions) = healthy(env, 2, 3).await;
-            let old: Vec<(bool, &Session)> = sessions.iter().map(|(r, s)| (3 - r <= 2, s)).collect();
+            let old: Vec<(Option<bool>, &Session)> = sessions.iter().map(|(r, s)| (Some(3 - r <= 2), s)).collect();
             file_case(env, "restart", "replay", Some(&bytes), 2, &old, Expect::Restored).await
         }
         _ => "trace kind not replayable (rotate/unwritable scenarios are timing/fs bound): run the check".into(),
@@ -794,7 +891,7 @@ fn check() {
     std::fs::create_dir_all(&dir).expect("scratch dir under /verif/work");
     // real time: the provider thread sleeps with std::thread::sleep
     let rt = tokio::runtime::Builder::new_current_thread().enable_all().build().expect("runtime");
-    let env = Env { ctx: &ctx, rig: rig(), dir: dir.clone(), next: std::cell::Cell::new(0) };
+    let env = Env { ctx: &ctx, rig: rig(), dir: dir.clone(), next: std::cell::Cell::new(0), live: std::cell::Cell::new(None) };
 
     if let Some(t) = common::replay_trace() {
         let a = rt.block_on(replay_one(&env, &t));
@@ -806,7 +903,8 @@ fn check() {
     }
     ctx.rule(
         "ntpd part, real file system: one start of the real nts_key_provider::spawn per case. Cases: no file (creation, mode), restart on \
-         the daemon's own file, restart on a 3-key file with sessions of ages 0..=3, restart after the daemon's own 1 s rotation, EVERY \
+         the daemon's own file, restart on a 3-key file with sessions of ages 0..=3 (with the stale-key-count it was written with, a larger and a smaller one; the \
+         smaller one also followed by the daemon's own rotation), restart after the daemon's own 1 s rotation, EVERY \
          prefix of a stored 1-key file (thorough: and of a 2-key file), 19 named corrupt-file classes (thorough: for a 1-key and a 2-key \
          file), missing directory, path is a directory. Every published key set is used through a real NTS-KE handshake and a real \
          Server::handle round trip (twice). Distinct & non-trivial = a distinct file content handed to a daemon start.",
